@@ -17,7 +17,7 @@ pub const ARRAY_START: u32 = 0;
 
 fn make_string_constant(s: &str) -> String {
     // PowerShell string escaping: backtick is the escape character
-    // Need to escape: backtick (`), double-quote ("), dollar sign ($), newline, carriage return
+    // Need to escape: backtick (`), double-quote (") and its curly variants, dollar sign ($), newline, carriage return
     format!(
         r#""{}""#,
         s.replace('`', "``")
@@ -25,6 +25,10 @@ fn make_string_constant(s: &str) -> String {
             .replace('$', "`$")
             .replace('\n', "`n")
             .replace('\r', "`r")
+            // PowerShell also accepts the curly double quotes as string delimiters
+            .replace('\u{201C}', "`\u{201C}")
+            .replace('\u{201D}', "`\u{201D}")
+            .replace('\u{201E}', "`\u{201E}")
     )
 }
 
